@@ -533,6 +533,8 @@ class Body:
         ln = line
         if ln is None and bb is not None:
             ln = self.blocks[bb]["term"].get("line")
+        if ln is None and self.loc and ":" in self.loc:
+            ln = self.loc.split(":")[1]
         return "%s:%s (%s)" % (self.file, ln if ln is not None else "?", self.path)
 
 
@@ -827,3 +829,27 @@ def _body_drop_flags(self):
 
 
 Body.drop_flags = _body_drop_flags
+
+
+def inline_call(prog, t, depth=0):
+    """If `t` is a call to a crate-local, straight-line function, return the callee's result term with the
+    actual arguments substituted (constructors and small helpers become visible to the rules); else `t`."""
+    if t[0] != "call" or depth > 3:
+        return t
+    name = t[1]["name"]
+    cands = [p for p in prog._bodies_raw if strip_generics(p) == name]
+    if len(cands) != 1:
+        ri = t[1].get("resolved_impl")
+        cands = [p for p in cands if prog.fns[p].get("impl") == ri]
+        if len(cands) != 1:
+            return t
+    cb = prog.body(cands[0])
+    if cb is None or cb.arg_count != len(t[2]):
+        return t
+    if any(bl["term"]["k"] == "switch" for bl in cb.blocks if not bl["cleanup"]):
+        return t
+    if cb.stores():
+        return t
+    mapping = {("arg", i + 1, cb.names.get(i + 1)): a for i, a in enumerate(t[2])}
+    r = subst(cb.return_term(), mapping)
+    return inline_call(prog, r, depth + 1) if r[0] == "call" else r
